@@ -22,6 +22,7 @@ from __future__ import annotations
 import ast
 import itertools
 import math
+import re
 import sys
 from fractions import Fraction
 
@@ -390,9 +391,12 @@ def direct_moments(ty, dim, L, pts, w, cs, f, exact=False):
             else:
                 tot = 0.0
                 for p, wi, fi in zip(pts, w, f):
-                    t = basis_value(ty, row, [a - b for a, b in zip(p, c)]) * fi * wi
+                    v = [a - b for a, b in zip(p, c)]
+                    t = basis_value(ty, row, v) * fi * wi
                     tot += t
-                    sc += abs(t)
+                    # natural magnitude of the term: |S_l^m(v)| <= |v|^l, so a harmonic that vanishes by symmetry at the
+                    # sampled points still gets the round-off allowance of its radial envelope
+                    sc += abs(t) if ty in ("cartesian", "radial") else abs(fi * wi) * math.sqrt(sum(x * x for x in v)) ** (sum(row[:-1]))
                 er.append(tot)
         exp.append(er)
         scale.append(sc)
@@ -439,7 +443,7 @@ def direct_moments_np(ty, dim, L, P, w, C, f):
         else:
             r = np.sqrt(np.sum(d * d, axis=1))
             rp = [np.ones(len(d))]
-            for _ in range(L):
+            for _ in range(2 * L):
                 rp.append(rp[-1] * r)
         cache = {}
         for ir, row in enumerate(rows):
@@ -456,8 +460,15 @@ def direct_moments_np(ty, dim, L, P, w, C, f):
                 b = cache[(l, m)] if ty == "pure" else rp[row[0]] * cache[(l, m)]
             t = wf * b
             exp[ir, ic] = float(np.sum(t))
-            scale[ir] += float(np.sum(np.abs(t)))
+            env = np.abs(t) if ty in ("cartesian", "radial") else np.abs(wf) * rp[sum(row[:-1])]   # |S_l^m(v)| <= |v|^l
+            scale[ir] += float(np.sum(env))
     return rows, exp, scale
+
+
+def far_offset(rng, dim: int):
+    """A translation far from the origin (|t| between 2^10 and 2^22 per coordinate, integer, so that quarter-step dyadic
+    coordinates stay exact after the shift): the property is invariant under a common translation of points and centres."""
+    return [float(rng.choice([-1, 1]) * rng.randint(2 ** 10, 2 ** rng.randint(11, 22))) for _ in range(dim)]
 
 
 def next_prime(n: int) -> int:
@@ -630,6 +641,8 @@ def run(ctx: Ctx):
     #                                                                     and exact correspondence with the translation
     cases, meta = [], []
     first_bad: dict = {}
+    first_bad_cls: dict = {}
+    bad_orders: dict = {}
     for ty in TYPES:
         for dim in (1, 2, 3):
             for L in range(0, LMAX_ORD + 1):
@@ -645,14 +658,19 @@ def run(ctx: Ctx):
                 exp = exp[0] if ty == "radial" else exp
                 obs = r[1] if is_crash(r) else np.asarray(r).tolist()
                 bad = is_crash(r) or obs != exp or np.asarray(r).dtype.kind not in "iu"
-                if bad and (ty, dim) not in first_bad:
-                    first_bad[(ty, dim)] = (L, obs, exp)
+                if bad:
+                    bad_orders.setdefault((ty, dim), set()).add(L)
+                    ocls = obs if isinstance(obs, str) else "wrong-list"
+                    if (ty, dim, ocls) not in first_bad_cls:   # one report per (generator, kind of failure): a listed known
+                        first_bad_cls[(ty, dim, ocls)] = (L, obs, exp)   # finding cannot hide a different failure
+                    if (ty, dim) not in first_bad:
+                        first_bad[(ty, dim)] = (L, obs, exp)
     for bad_args in [(2, "cartesian", 4), (2, "cartesian", 0), (1, "spherical", 3), (-1, "cartesian", 3), (-2, "pure-radial", 3), (-1, "cartesian", 2)]:
         r = impl_orders(*bad_args)
         cases.append(f'res_eqb (gen_orders {z(bad_args[0])} "{bad_args[1]}"%string {bad_args[2]}) ({coq_res(r)})')
         meta.append((bad_args[1], bad_args[2], bad_args[0], r))
         ctx.case(("orders-edge",) + bad_args)
-    for (ty, dim), (L, obs, exp) in sorted(first_bad.items()):
+    for (ty, dim, _ocls), (L, obs, exp) in sorted(first_bad_cls.items()):
         call = f"generate_orders_horton_order({L}, '{ty}', {dim})"
         ob = "orders_cartesian_spec(dim=1)" if (ty, dim) == ("cartesian", 1) else f"orders_{ty.replace('-', '_')}_spec"
         emit(ob, call, obs if isinstance(obs, str) else str(obs),
@@ -671,13 +689,20 @@ def run(ctx: Ctx):
     ctx.sample({"orders": ["cartesian", 3, 2], "impl": np.asarray(impl_orders(2, "cartesian", 3)).tolist()})
     ctx.sample({"orders": ["pure-radial", 3, 2], "impl": np.asarray(impl_orders(2, "pure-radial", 3)).tolist()})
 
-    # at most MAXREP failing inputs are reported per obligation (the rest are counted)
-    MAXREP = 3
+    # At most MAXREP failing inputs are listed per (obligation, class of inputs) and MAXALL in total; the rest are counted.
+    # The class is the key without its numbers (type, tag, dtype, layout, grid class ...).  Listed known findings are
+    # always passed through and never use up a slot, so they cannot hide a different failure.
+    MAXREP, MAXALL = 2, 12
     nrep: dict = {}
 
     def report(ob, key, observed, text, replay=None, found_input=True):
-        nrep[ob] = nrep.get(ob, 0) + 1
-        if nrep[ob] <= MAXREP:
+        if found_input and ctx.is_known(key, observed):
+            emit(ob, key, observed, text, replay, found_input)
+            return
+        cfg = (ob, re.sub(r"-?\d+(\.\d+)?", "", str(key)))
+        nrep[cfg] = nrep.get(cfg, 0) + 1
+        nrep["*"] = nrep.get("*", 0) + 1
+        if (nrep[cfg] <= MAXREP and nrep["*"] <= MAXALL) or nrep[cfg] == 1 and nrep["*"] <= 3 * MAXALL:
             emit(ob, key, observed, text, replay, found_input)
         else:
             ctx.count(f"failing inputs not listed:{ob}")
@@ -693,7 +718,7 @@ def run(ctx: Ctx):
         if extra:
             rp.update(extra)
         if is_crash(res):
-            if ty == "cartesian" and dim == 1 and ("cartesian", 1) in first_bad:
+            if ty == "cartesian" and dim == 1 and any(l <= L for l in bad_orders.get(("cartesian", 1), ())):
                 ctx.count("moments:1d-skipped(generator finding)")
                 return True  # consequence of the reported 1-D generator finding
             what = ("returns a different array with return_orders=False than with return_orders=True"
@@ -738,6 +763,11 @@ def run(ctx: Ctx):
         fa, f = draw_f(rng, npt, fkind, "int")
         f = [int(x) for x in f]
         cs = [[rng.choice([-2, -1, 1, 2]) if j == 0 or rng.random() < 0.8 else 0 for j in range(dim)] for _ in range(ncs)]
+        if k % 4 == 3:   # the same configuration in a frame far from the origin
+            t = [int(x) for x in far_offset(rng, dim)]
+            pts = [[x + o for x, o in zip(p_, t)] for p_ in pts]
+            cs = [[x + o for x, o in zip(c_, t)] for c_ in cs]
+            ctx.count("frame:far-from-origin")
         res = impl_moments(pts, w, L, cs, fa, "cartesian", layout)
         if is_crash(res):
             e = "None"
@@ -797,8 +827,14 @@ def run(ctx: Ctx):
         w = [rng.choice([-0.75, -0.25, 0.25, 0.5, 0.75, 1.25, 1.5]) for _ in range(npt)]
         fa, f = draw_f(rng, npt, fkind, "dyadic")
         cs = [[(2 * rng.randint(-3, 2) + 1) / 4.0 if j == 0 or rng.random() < 0.8 else 0.5 for j in range(dim)] for _ in range(ncs)]
+        far = k % 4 == 1
+        if far:
+            t = far_offset(rng, dim)
+            pts = [[x + o for x, o in zip(p_, t)] for p_ in pts]
+            cs = [[x + o for x, o in zip(c_, t)] for c_ in cs]
+            ctx.count("frame:far-from-origin")
         res = impl_moments(pts, w, L, cs, fa, "cartesian", layout)
-        ok = check_property("cartesian", dim, L, pts, w, cs, f, res, True, f"dyadic#{k}", fkind, layout)
+        ok = check_property("cartesian", dim, L, pts, w, cs, f, res, True, f"dyadic{'-far' if far else ''}#{k}", fkind, layout)
         if is_crash(res):
             e = "None"
         else:
@@ -823,9 +859,15 @@ def run(ctx: Ctx):
     lmax_h = 8 if quick else 12
     vs = [[0.0, 0.0, 0.0], [0.0, 0.0, 1.5], [0.0, 0.0, -2.0], [1.0, 0.0, 0.0], [0.0, -1.5, 0.0], [-0.75, 0.0, 0.0], [1.0, 1.0, 0.0]]
     vs += [[rng.randint(-16, 16) / 8.0 for _ in range(3)] for _ in range(20 if quick else 200)]
-    lib = np.asarray(gu.solid_harmonics(lmax_h, gu.convert_cart_to_sph(np.array(vs))), dtype=float)
     hyp_bad = None
-    if lib.shape != ((lmax_h + 1) ** 2, len(vs)):
+    try:
+        lib = np.asarray(gu.solid_harmonics(lmax_h, gu.convert_cart_to_sph(np.array(vs))), dtype=float)
+    except Exception as e:  # noqa: BLE001
+        lib = np.zeros((0, 0))
+        hyp_bad = (f"solid_harmonics({lmax_h}, convert_cart_to_sph(points)) raises", type(e).__name__)
+    if hyp_bad is not None:
+        pass
+    elif lib.shape != ((lmax_h + 1) ** 2, len(vs)):
         hyp_bad = ("shape", list(lib.shape))
     else:
         for i, v in enumerate(vs):
@@ -869,8 +911,14 @@ def run(ctx: Ctx):
         cs = [[rng.randint(-6, 6) / 4.0 for _ in range(dim)] for _ in range(ncs)]
         if k % 7 == 0:
             cs[0] = list(pts[-1])  # a centre on a grid point: r = 0
+        far = (k // 3) % 2 == 1
+        if far:   # exact: quarter-step coordinates plus an integer translation; differences p - c are unchanged
+            t = far_offset(rng, dim)
+            pts = [[x + o for x, o in zip(p_, t)] for p_ in pts]
+            cs = [[x + o for x, o in zip(c_, t)] for c_ in cs]
+            ctx.count("frame:far-from-origin")
         res = impl_moments(pts, w, L, cs, fa, ty, layout)
-        ok = check_property(ty, dim, L, pts, w, cs, f, res, False, f"dyadic#{k}", fkind, layout)
+        ok = check_property(ty, dim, L, pts, w, cs, f, res, False, f"dyadic{'-far' if far else ''}#{k}", fkind, layout)
         ctx.count(f"func_vals:{fkind}:{layout}")
         ctx.case(("sph", ty, dim, L, npt, ncs, k))
         ctx.count(f"{ty}:{dim}D:centres={ncs}")
@@ -917,8 +965,18 @@ def run(ctx: Ctx):
         fkind, layout = FKINDS[(k // 3) % 5], LAYOUTS[(k // 15) % 3]
         fa, f = draw_f(rng, npt, fkind, "float")
         cs = [[rng.uniform(-1.5, 1.5) for _ in range(dim)] for _ in range(ncs)]
+        frame = ["near", "far", "near", "scaled"][(k // 3) % 4]
+        if frame == "far":
+            t = far_offset(rng, dim)
+            pts = [[x + o for x, o in zip(p_, t)] for p_ in pts]
+            cs = [[x + o for x, o in zip(c_, t)] for c_ in cs]
+        elif frame == "scaled":
+            sc = rng.choice([2.0 ** -12, 2.0 ** -5, 2.0 ** 6, 2.0 ** 11])
+            pts = [[x * sc for x in p_] for p_ in pts]
+            cs = [[x * sc for x in c_] for c_ in cs]
+        ctx.count(f"frame:{frame}")
         res = impl_moments(pts, w, np.int64(L) if k % 4 == 0 else L, cs, fa, ty, layout)  # NumPy integer orders are accepted too
-        check_property(ty, dim, L, pts, w, cs, f, res, False, f"float#{k}", fkind, layout)
+        check_property(ty, dim, L, pts, w, cs, f, res, False, f"float-{frame}#{k}", fkind, layout)
         ctx.count(f"func_vals:{fkind}:{layout}")
         ctx.case(("flt", ty, dim, L, npt, ncs, k))
         ctx.count(f"{ty}:{dim}D:centres={ncs}")
@@ -1001,7 +1059,7 @@ def run(ctx: Ctx):
         og_err = type(e).__name__
     hist_classes = ["Grid", "UniformGrid", "AngularGrid"] + (["OneDGrid"] if og_err is None else [])
     nhist = 40 if quick else 400
-    templates = ["points-same", "points-other", "weights", "funcvals", "interleaved", "shell"]
+    templates = ["points-same", "points-other", "weights", "funcvals", "interleaved", "shell", "far"]
     hows = ["shift", "scale", "permute", "tiny"]
     for k in range(nhist):
         tpl = templates[k % len(templates)]
@@ -1009,7 +1067,11 @@ def run(ctx: Ctx):
         dim = 3 if cls == "AngularGrid" else 1 if cls == "OneDGrid" else [3, 2, 1, 3][(k // 18) % 4]
         if cls == "UniformGrid" and dim == 1:
             dim = 2  # UniformGrid exists in 2-D and 3-D only
-        g = make_grid(cls, dim)
+        try:
+            g = make_grid(cls, dim)
+        except Exception as e:  # noqa: BLE001 - construction of the grid classes belongs to other properties
+            ctx.count(f"history:{cls} constructor raised {type(e).__name__}")
+            continue
         cur = [np.asarray(g.points, dtype=float).reshape(len(g.weights), -1).tolist(), np.asarray(g.weights, dtype=float).tolist()]
         hist = [{"op": "points", "points": cur[0]}, {"op": "weights", "weights": cur[1]}]
         ty = rng.choice(TYPES if dim == 3 else ["cartesian", "radial"])
@@ -1020,17 +1082,31 @@ def run(ctx: Ctx):
         fk = FKINDS[k % 5]
         tag = f"{tpl}#{k}"
 
-        def set_points(how):
-            a = new_points(cur[0], how)
-            g.points = a[:, 0] if cls == "OneDGrid" else a
+        def set_points(how, a=None):
+            a = new_points(cur[0], how) if a is None else a
+            hist.append({"op": "points", "how": how, "points": a.tolist()})
+            try:
+                g.points = a[:, 0] if cls == "OneDGrid" else a
+            except Exception as e:  # noqa: BLE001
+                report("entry_is_quadrature_" + ty.replace("-", "_"), f"history:{cls}:{tag}:points-setter", type(e).__name__,
+                       f"{cls}.points = <array of the same shape> raises {type(e).__name__}; later moments cannot follow the new points",
+                       {"history": [dict(h) for h in hist], "class": cls})
+                return False
             cur[0] = a.tolist()
-            hist.append({"op": "points", "how": how, "points": cur[0]})
+            return True
 
-        def set_weights(how):
-            a = new_weights(cur[1], how)
-            g.weights = a
+        def set_weights(how, a=None):
+            a = new_weights(cur[1], how) if a is None else a
+            hist.append({"op": "weights", "how": how, "weights": a.tolist()})
+            try:
+                g.weights = a
+            except Exception as e:  # noqa: BLE001
+                report("entry_is_quadrature_" + ty.replace("-", "_"), f"history:{cls}:{tag}:weights-setter", type(e).__name__,
+                       f"{cls}.weights = <array of the same shape> raises {type(e).__name__}",
+                       {"history": [dict(h) for h in hist], "class": cls})
+                return False
             cur[1] = a.tolist()
-            hist.append({"op": "weights", "how": how, "weights": cur[1]})
+            return True
 
         ok = hist_moments(g, hist, cur, ty, L, cs, fk, cls, tag)
         if not ok:
@@ -1063,16 +1139,18 @@ def run(ctx: Ctx):
                     set_weights("scale")
                     set_points(rng.choice(hows))
                 hist_moments(g, hist, cur, t2, L if t2 == ty else rng.randint(1, 3), cs, FKINDS[(k + i) % 5], cls, tag)
+        elif tpl == "far":                 # the grid is moved far from the origin, the centres move with it
+            for _ in range(2):
+                t = far_offset(rng, dim)
+                if not set_points("far", np.array(cur[0]) + np.array(t)):
+                    break
+                cs = [[x + o for x, o in zip(c_, t)] for c_ in cs]
+                hist_moments(g, hist, cur, ty, L, cs, fk, cls, tag)
+                hist_moments(g, hist, cur, other(ty, dim), rng.randint(1, 3), cs, "float64", cls, tag)
         else:                              # the library's own pattern (AtomGrid.get_shell_grid): sphere.points = pts * r; sphere.weights = wts * r**2
             for r in (0.5, 2.0):
-                a = np.array(cur[0]) * r
-                g.points = a
-                cur[0] = a.tolist()
-                hist.append({"op": "points", "how": f"shell r={r}", "points": cur[0]})
-                b = np.array(cur[1]) * r ** 2
-                g.weights = b
-                cur[1] = b.tolist()
-                hist.append({"op": "weights", "how": f"shell r={r}", "weights": cur[1]})
+                if not (set_points(f"shell r={r}", np.array(cur[0]) * r) and set_weights(f"shell r={r}", np.array(cur[1]) * r ** 2)):
+                    break
                 hist_moments(g, hist, cur, ty, L, cs, fk, cls, tag)
     ctx.case(("hist", "OneDGrid"))
     if og_err is not None:
@@ -1106,6 +1184,12 @@ def run(ctx: Ctx):
         w = r_.uniform(0.2, 1.0, npt) / npt
         f = r_.uniform(0.5, 2.0, npt) * r_.choice([-1.0, 1.0], npt)
         C = r_.uniform(-0.5, 0.5, (ncs, dim))
+        if k % 3 == 2:   # frame far from the origin
+            t_ = np.array(far_offset(rng, dim))
+            P = P + t_
+            C = C + t_
+            gen_code += f"; t = np.array({t_.tolist()}); P = P + t; C = C + t"
+            ctx.count("frame:far-from-origin")
         onehot = np.zeros(npt)
         onehot[-1] = 1.0
         for label, fv in (("random", f), ("indicator-of-last-point", onehot)):
@@ -1235,7 +1319,9 @@ def run(ctx: Ctx):
                        "same and with different type/order/centres, consecutive calls with different function values, interleaved types, "
                        "the AtomGrid.get_shell_grid pattern; every call judged by direct quadrature over the arrays assigned last; large grids "
                        "(prime sizes 1e3..1.2e6, rows*dim*points up to 1.2e7 quick / 3e7 thorough, all types, function of order one at every "
-                       "point and the indicator of the last point; dipole on 360007 points) against a vectorised row-by-row direct quadrature" % (LMAX_ORD, 6 if quick else 9))
+                       "point and the indicator of the last point; dipole on 360007 points) against a vectorised row-by-row direct quadrature; "
+                       "coordinate frames: a share of all case families is translated far from the origin (integer offsets 2^10..2^22 per "
+                       "coordinate applied to points and centres alike, exact for the dyadic families) or rescaled by 2^-12..2^11" % (LMAX_ORD, 6 if quick else 9))
     ctx.trusted += [
         "py2coq/int translator OrdersTranslator (tools/props/c14.py) for generate_orders_horton_order; validated by exact correspondence on all orders 0..%d" % LMAX_ORD,
         "NumPy semantics assumed by the model vocabulary: np.array of int rows (ragged -> error, [] -> shape (0,)), np.vstack row stacking with equal widths, np.arange, np.ravel; a dtype attribute missing from the installed NumPy raises",
